@@ -232,6 +232,8 @@ type c21Case struct {
 	ref   *c21Tally
 	log   []map[string]any
 	cap   *c21Cap
+	// former: number of keys right after the n current voters that were authorities of the previous set only
+	former int
 }
 
 type c21Cap struct {
@@ -252,7 +254,7 @@ func (k *c21Case) witness(extra map[string]any) map[string]any {
 }
 
 var c21BadKinds = []string{"bad-sig", "sig-other-round", "non-authority", "unknown-block", "wrong-number",
-	"not-descendant-of-head", "abandoned-fork-block", "wrong-set", "round-ahead-2", "round-ahead-1", "round-behind", "from-self"}
+	"not-descendant-of-head", "abandoned-fork-block", "former-authority", "wrong-set", "round-ahead-2", "round-ahead-1", "round-behind", "from-self"}
 
 // make builds a delivery of the given kind; returns nil when the kind is not applicable.
 func (k *c21Case) make(kind string, stage, voter, block int) *c21Delivery {
@@ -270,6 +272,13 @@ func (k *c21Case) make(kind string, stage, voter, block int) *c21Delivery {
 	case "sig-other-round":
 		d.Msg = verifVoteMessage(k.keys[voter], st, vote, k.round+1, k.setID)
 		d.Msg.Round = k.round
+	case "former-authority":
+		// an authority of the previous set only, signing correctly for the current round and set id
+		if k.former == 0 {
+			return nil
+		}
+		d.Voter = k.n + r.Intn(k.former)
+		d.Msg = verifVoteMessage(k.keys[d.Voter], st, vote, k.round, k.setID)
 	case "non-authority":
 		d.Voter = k.n + r.Intn(len(k.keys)-k.n)
 		d.Msg = verifVoteMessage(k.keys[d.Voter], st, vote, k.round, k.setID)
@@ -762,6 +771,83 @@ func c21Setup(c *vcommon.Case, tree *verifTree, n, self int, finalise int, setID
 	return k
 }
 
+// c21SetupAfterSetChange builds a node whose Service first lives in authority set 0 (round opened, a few votes
+// of set-0 voters validated), then goes through an authority set change (SetNextChange + IncrementSetID +
+// initiateRound -> updateAuthorities) to a set of n voters with other keys (overlapping or disjoint; the
+// service's own key is in both). The round under test is round 1 of set id 1; keys = current voters,
+// then former-only authorities, then two never-authorities.
+func c21SetupAfterSetChange(c *vcommon.Case, tree *verifTree, n, self int, finalise int, keyTag uint64) *c21Case {
+	r := c.R
+	pool := verifKeypairs(keyTag, 16)
+	cur := pool[:n]
+	var old []*ed25519.Keypair
+	var formerOnly []*ed25519.Keypair
+	for i := 0; i < n; i++ { // overlap
+		if i != self && r.Intn(100) < 40 {
+			old = append(old, pool[i])
+		}
+	}
+	for i := 0; i < r.Range(1, 5); i++ {
+		old = append(old, pool[7+i])
+		formerOnly = append(formerOnly, pool[7+i])
+	}
+	selfOld := r.Intn(len(old) + 1)
+	old = append(old[:selfOld], append([]*ed25519.Keypair{pool[self]}, old[selfOld:]...)...)
+	node, err := verifNewNode(tree, old, verifNodeOpts{Self: selfOld})
+	if err != nil {
+		c.Inconclusive("setup: " + err.Error())
+		return nil
+	}
+	fail := func(msg string) *c21Case {
+		node.Close()
+		c.Inconclusive(msg)
+		return nil
+	}
+	head := 0
+	if finalise > 0 {
+		if err = node.Block.BlockState.SetFinalisedHash(tree.Hashes[finalise], 1, 0); err != nil {
+			return fail("setup finalise: " + err.Error())
+		}
+		head = finalise
+	}
+	if err = node.Service.initiateRound(); err != nil {
+		return fail("initiateRound (set 0): " + err.Error())
+	}
+	// life in set 0: some votes of set-0 voters are validated
+	desc := tree.Descendants(head)
+	for i, kp := range old {
+		if i == selfOld || r.Intn(100) < 40 {
+			continue
+		}
+		st := Subround(r.Intn(2)) //nolint:gosec
+		_, _ = node.Service.validateVoteMessage("", verifVoteMessage(kp, st, tree.Vote(vcommon.Pick(r, desc)), node.Service.state.round, 0))
+		c.Count("votes_validated_before_set_change", 1)
+	}
+	if err = node.Grandpa.GrandpaState.SetNextChange(verifVoters(cur), tree.Number[head]); err != nil {
+		return fail("SetNextChange: " + err.Error())
+	}
+	if _, err = node.Grandpa.GrandpaState.IncrementSetID(); err != nil {
+		return fail("IncrementSetID: " + err.Error())
+	}
+	if err = node.Service.initiateRound(); err != nil {
+		return fail("initiateRound (set 1): " + err.Error())
+	}
+	if node.Service.state.setID != 1 || len(node.Service.state.voters) != n || tree.Index(node.Service.head.Hash()) != head {
+		return fail(fmt.Sprintf("set change not applied: set id %d, %d voters, head %d", node.Service.state.setID,
+			len(node.Service.state.voters), tree.Index(node.Service.head.Hash())))
+	}
+	keys := append(append(append([]*ed25519.Keypair{}, cur...), formerOnly...), pool[14:]...)
+	node.Keys = keys
+	k := &c21Case{c: c, node: node, tree: tree, keys: keys, n: n, self: self, head: head,
+		round: node.Service.state.round, setID: 1, former: len(formerOnly)}
+	k.ref = newC21Tally(tree, n, head)
+	c.Count("cases_after_set_change", 1)
+	if len(old) != n {
+		c.Count("cases_after_set_change_size_differs", 1)
+	}
+	return k
+}
+
 func (k *c21Case) installCap(cp *c21Cap) {
 	k.cap = cp
 	tree := k.tree
@@ -873,7 +959,12 @@ func c21RunGenerated(c *vcommon.Case) {
 	if r.Intn(6) == 0 {
 		setID = 1
 	}
-	k := c21Setup(c, tree, n, self, fin, setID, r.Uint64())
+	var k *c21Case
+	if r.Intn(4) == 0 {
+		k = c21SetupAfterSetChange(c, tree, n, self, fin, r.Uint64())
+	} else {
+		k = c21Setup(c, tree, n, self, fin, setID, r.Uint64())
+	}
 	if k == nil {
 		return
 	}
@@ -937,8 +1028,13 @@ func TestVerifC21(t *testing.T) {
 		if kind == "abandoned-fork-block" {
 			need = 5
 		}
+		if kind == "former-authority" {
+			need = 15
+		}
 		r.Floor("delivered_"+kind, need)
 	}
+	r.Floor("cases_after_set_change", 150)
+	r.Floor("votes_validated_before_set_change", 100)
 	corpus := c21Corpus()
 	r.Fixed("corpus", len(corpus), func(c *vcommon.Case) { c21RunFixed(c, corpus[c.Idx]) })
 	r.Cases("gen", r.Scale(1500), c21RunGenerated)
